@@ -277,6 +277,26 @@ class DSession:
         out, _ = _outcome(lambda: self.dispatcher.unsubscribe(obj))
         self._ev({"a": "Unsub", "o": o, "out": out})
 
+    def _extra_ids(self):
+        """subscribers as identities: 1-based index into self.extra (built-in observers of this session), else 0"""
+        out = []
+        for o in self.dispatcher.subscribers:
+            k = 0
+            for i, x in enumerate(self.extra):
+                if x is o:
+                    k = i + 1
+            out.append(k)
+        return out
+
+    def unsubscribe_builtin(self, idx):
+        """unsubscribe THE built-in observer self.extra[idx] (there may be a twin of the same class and state)"""
+        obj = self.extra[idx]
+        before = self._extra_ids()
+        if (idx + 1) not in before:
+            return
+        out, _ = _outcome(lambda: self.dispatcher.unsubscribe(obj))
+        self._ev({"a": "UnsubBuiltin", "target": idx + 1, "before": before, "after": self._extra_ids(), "out": out})
+
     def create_or_get(self, cls):
         classes = {"rec": Rec, "hist": HistoryObserver, "histsub": HistSub}
         d = self.dispatcher
